@@ -771,6 +771,10 @@ static int enum_actions(struct act *out)
                 out[n++] = (struct act){A_HOLD_EXIT_OK, 0};
                 out[n++] = (struct act){A_HOLD_EXIT_ERR, 0};
         }
+        if (W.act_queries && W.use_mutex) {
+                out[n++] = (struct act){A_Q_BUSY, 0};
+                out[n++] = (struct act){A_Q_HOLD, 0};
+        }
         if (W.act_queries) {
                 out[n++] = (struct act){A_Q_FULL, 0};
                 for (int e = 0; e < W.nev; e++) {
@@ -878,6 +882,22 @@ static int m_step(int action)
                 if (held != 0) I.S->last_svc_ok = 0;
                 break;
         }
+        case A_Q_BUSY: {
+                api_enter();
+                cat_status s = cat_is_busy(I.obj);
+                I.last_ret = s;
+                if (api_leave("cat_is_busy", s)) break;
+                if (!L.unlock_failed) mon_busy_answer(s);
+                break;
+        }
+        case A_Q_HOLD: {
+                api_enter();
+                cat_status s = cat_is_hold(I.obj);
+                I.last_ret = s;
+                if (api_leave("cat_is_hold", s)) break;
+                if (!L.unlock_failed) mon_hold_answer(s);
+                break;
+        }
         case A_Q_FULL: {
                 api_enter();
                 cat_status s = cat_is_unsolicited_buffer_full(I.obj);
@@ -956,7 +976,82 @@ static void m_describe_result(char *out, size_t n)
                  L.handler_calls, L.var_calls, L.lock_failed ? " LOCK-FAILED" : "", L.unlock_failed ? " UNLOCK-FAILED" : "");
 }
 
+/* ---- liveness (C15): edges of the quiet eager continuation ---- */
+struct ledge { mcx_hash_t pre, post; uint8_t flags; };   /* flags: 1 terminal (returned OK), 2 exempt (unreleased hold) */
+static struct ledge *ltab; static uint64_t lcap, lcount;
+int w_liveness;
+
+static struct ledge *l_find(mcx_hash_t h, int insert)
+{
+        if (!ltab) { lcap = 1 << 16; ltab = calloc(lcap, sizeof *ltab); }
+        if (insert && (lcount + 1) * 10 > lcap * 7) {
+                struct ledge *old = ltab; uint64_t oc = lcap;
+                lcap <<= 1; ltab = calloc(lcap, sizeof *ltab); lcount = 0;
+                if (!ltab) mcx_fatal("oom liveness table");
+                for (uint64_t i = 0; i < oc; i++) if (old[i].pre.a || old[i].pre.b) *l_find(old[i].pre, 1) = old[i];
+                free(old);
+        }
+        if (h.a == 0 && h.b == 0) h.b = 1;
+        uint64_t i = h.a & (lcap - 1);
+        for (;;) {
+                if (ltab[i].pre.a == 0 && ltab[i].pre.b == 0) {
+                        if (!insert) return NULL;
+                        ltab[i].pre = h; lcount++;
+                        return &ltab[i];
+                }
+                if (ltab[i].pre.a == h.a && ltab[i].pre.b == h.b) return &ltab[i];
+                i = (i + 1) & (lcap - 1);
+        }
+}
+
+static void m_on_transition(int action, const struct mcx_choices *c, mcx_hash_t pre, mcx_hash_t post)
+{
+        (void)c;
+        if (!w_liveness) return;
+        struct act a[64];
+        /* the action list is state dependent but action 0 is always cat_service */
+        (void)a;
+        if (action != 0) return;
+        if (L.reads_delivered || L.writes_refused || L.nonquiet || L.lock_failed || L.unlock_failed) return;
+        struct ledge *e = l_find(pre, 1);
+        e->post = post;
+        e->flags = 0;
+        if (I.last_ret == CAT_STATUS_OK) e->flags |= 1;
+        if (mon_hold_phase() == 1) e->flags |= 2;
+}
+
+/* returns max distance to quiescence; -1 livelock; -2 missing edge */
+long world_liveness_check(uint64_t *nodes, mcx_hash_t *witness)
+{
+        long maxd = 0;
+        *nodes = lcount;
+        if (!ltab) return 0;
+        int32_t *dist = malloc(sizeof(int32_t) * lcap);
+        for (uint64_t i = 0; i < lcap; i++) dist[i] = -1;
+        uint64_t *stack = malloc(sizeof(uint64_t) * 100000);
+        for (uint64_t i = 0; i < lcap; i++) {
+                if (!(ltab[i].pre.a || ltab[i].pre.b) || dist[i] >= 0) continue;
+                uint64_t sp = 0, cur = i;
+                for (;;) {
+                        if (dist[cur] >= 0) break;
+                        if (ltab[cur].flags & 3) { dist[cur] = 0; break; }
+                        if (dist[cur] == -2 || sp >= 99999) { *witness = ltab[cur].pre; free(dist); free(stack); return -1; }
+                        dist[cur] = -2;
+                        stack[sp++] = cur;
+                        struct ledge *n = l_find(ltab[cur].post, 0);
+                        if (!n) { *witness = ltab[cur].post; free(dist); free(stack); return -2; }
+                        cur = (uint64_t)(n - ltab);
+                }
+                long d = dist[cur];
+                while (sp > 0) { d++; dist[stack[--sp]] = (int32_t)d; }
+                if (d > maxd) maxd = d;
+        }
+        free(dist); free(stack);
+        return maxd;
+}
+
 const struct mcx_model world_model = {
+        .on_transition = m_on_transition,
         .describe_result = m_describe_result,
         .init = world_init,
         .n_actions = m_n_actions,
